@@ -1,5 +1,5 @@
 //! C12 — marginal MAP, MEU and the generic branch-and-bound return true optima.
-use crate::walk::bdd_tt;
+use crate::walk::{bdd_tt, set_label_map};
 use crate::bddi::{order_keys_strategy, perm_from_keys};
 use crate::engine::*;
 use crate::fnsrc::*;
@@ -13,8 +13,40 @@ use rsdd::util::semirings::{ExpectedUtility, RealSemiring};
 use serde::{Deserialize, Serialize};
 use std::collections::BTreeSet;
 
-fn model_of(pm: &PartialModel, n: usize) -> Vec<Option<bool>> {
-    (0..n).map(|v| pm.get(VarLabel::new_usize(v))).collect()
+fn model_of(pm: &PartialModel, labels: &[usize]) -> Vec<Option<bool>> {
+    labels.iter().map(|l| pm.get(VarLabel::new_usize(*l))).collect()
+}
+
+/// Embedding of the case's n variables into a builder with `total` variables: `labels[v]` plays variable v; the
+/// builder's order is a pseudo-random order of all labels in which the n relevant ones keep the relative order
+/// `rel` (given as variables, first to last). Without an embedding: labels = identity, order = rel.
+struct Embedding {
+    labels: Vec<usize>,
+    order: Vec<usize>,
+    total: usize,
+}
+
+fn embedding(embed: Option<(u8, u64)>, n: usize, rel: &[usize]) -> Embedding {
+    match embed {
+        None => Embedding { labels: (0..n).collect(), order: rel.to_vec(), total: n },
+        Some((t, seed)) => {
+            let total = (t as usize).max(n);
+            let mut labels = crate::big::permutation(seed ^ 0xC12_5EED, total);
+            labels.truncate(n);
+            let mut order = crate::big::permutation(seed, total);
+            // positions that hold relevant labels, in order; refill them in the wanted relative order
+            let pos: Vec<usize> = order.iter().enumerate().filter(|(_, l)| labels.contains(l)).map(|(i, _)| i).collect();
+            for (k, v) in rel.iter().enumerate() {
+                order[pos[k]] = labels[*v];
+            }
+            let mut map: Vec<Option<usize>> = vec![None; total];
+            for (v, l) in labels.iter().enumerate() {
+                map[*l] = Some(v);
+            }
+            set_label_map(Some(map));
+            Embedding { labels, order, total }
+        }
+    }
 }
 
 fn cofactor_all(mut t: Tt, q: &[(usize, bool)]) -> Tt {
@@ -44,6 +76,10 @@ pub struct MapCase {
     /// 2^-42 and gaps between candidates far below any fixed tolerance, still exact in f64
     #[serde(default)]
     pub tiny: bool,
+    /// Some((total, seed)): the function lives in a builder with `total` variables (labels scattered, crossing 32 /
+    /// 64 / 128), pseudo-random order
+    #[serde(default)]
+    pub embed: Option<(u8, u64)>,
 }
 
 pub struct Map;
@@ -52,8 +88,9 @@ pub fn run_map(case: &MapCase, st: &mut Stats) -> CaseResult {
     let n = case.src.n();
     let t = case.src.tt();
     let order = perm_from_keys(&case.order, n);
-    let b = RobddBuilder::<AllIteTable<BddPtr>>::new(VarOrder::new(&order.iter().map(|v| VarLabel::new_usize(*v)).collect::<Vec<_>>()));
-    let f = bdd_from_tt(&b, t, n);
+    let emb = embedding(case.embed, n, &order);
+    let b = RobddBuilder::<AllIteTable<BddPtr>>::new(VarOrder::new(&emb.order.iter().map(|v| VarLabel::new_usize(*v)).collect::<Vec<_>>()));
+    let f = bdd_from_tt_labels(&b, t, &emb.labels);
     // the optimum is taken over the function the diagram denotes (whether the builder produced the requested
     // one is C01's concern)
     let t = bdd_tt(f);
@@ -96,8 +133,11 @@ pub fn run_map(case: &MapCase, st: &mut Stats) -> CaseResult {
         }
     };
     let mut params = WmcParams::<RealSemiring>::default();
-    for v in 0..n {
-        params.set_weight(VarLabel::new_usize(v), RealSemiring(w(v, false)), RealSemiring(w(v, true)));
+    for l in 0..emb.total {
+        match emb.labels.iter().position(|x| *x == l) {
+            Some(v) => params.set_weight(VarLabel::new_usize(l), RealSemiring(w(v, false)), RealSemiring(w(v, true))),
+            None => params.set_weight(VarLabel::new_usize(l), RealSemiring(0.5), RealSemiring(0.5)),
+        }
     }
     let fops = Ops::<f64> { zero: 0.0, one: 1.0, add: &|a, b| a + b, mul: &|a, b| a * b };
     let all: Vec<usize> = (0..n).collect();
@@ -119,9 +159,9 @@ pub fn run_map(case: &MapCase, st: &mut Stats) -> CaseResult {
             best = val;
         }
     }
-    let qlbl: Vec<VarLabel> = q.iter().map(|v| VarLabel::new_usize(*v)).collect();
+    let qlbl: Vec<VarLabel> = q.iter().map(|v| VarLabel::new_usize(emb.labels[*v])).collect();
     let check = |name: &str, got: f64, pm: &PartialModel| -> CaseResult {
-        let m = model_of(pm, n);
+        let m = model_of(pm, &emb.labels);
         ensure!(
             got == best,
             format!("C12/{}-value-not-the-maximum", name),
@@ -155,7 +195,9 @@ pub fn run_map(case: &MapCase, st: &mut Stats) -> CaseResult {
         );
         Ok(())
     };
-    let nv = n + (case.extra_vars % 4) as usize;
+    let nv = emb.total + (case.extra_vars % 4) as usize;
+    st.flag("map.embedded_in_a_larger_builder", case.embed.is_some());
+    st.flag("map.query_label_at_or_above_64", q.iter().any(|v| emb.labels[*v] >= 64));
     let (v1, m1) = f.marginal_map(&qlbl, nv, &params);
     check("marginal_map", v1, &m1)?;
     let (v2, m2) = f.bb::<RealSemiring>(&qlbl, nv, &params);
@@ -184,7 +226,7 @@ pub fn run_map(case: &MapCase, st: &mut Stats) -> CaseResult {
 impl SubCheckT for Map {
     type Case = MapCase;
     const NAME: &'static str = "marginal_map";
-    const RULE: &'static str = "random function over <=6 variables under a random order; query set = any subset in any order (empty, all, variables outside the support); weights k/8 in [0,1] (or, in a third of the cases, powers of two down to 2^-7 and their complements, with query weights any power of two down to 2^-15, so that values go far below 1e-9 and candidates lie closer than any fixed tolerance), normalised on non-query variables, arbitrary on query variables: marginal_map and bb::<RealSemiring> return exactly the maximum over all query assignments of the weighted count restricted to the assignment (exhaustive enumeration, exact dyadic arithmetic), the returned model assigns every query variable and attains that value (any maximiser accepted on ties); num_vars = n..n+3. Non-trivial: >=2 query variables in the support and >=2 distinct values among query assignments";
+    const RULE: &'static str = "random function over <=6 variables under a random order (in a quarter of the cases inside a builder with 9..198 variables, its variables scattered over labels that cross 32 / 64 / 128); query set = any subset in any order (empty, all, variables outside the support); weights k/8 in [0,1] (or, in a third of the cases, powers of two down to 2^-7 and their complements, with query weights any power of two down to 2^-15, so that values go far below 1e-9 and candidates lie closer than any fixed tolerance), normalised on non-query variables, arbitrary on query variables: marginal_map and bb::<RealSemiring> return exactly the maximum over all query assignments of the weighted count restricted to the assignment (exhaustive enumeration, exact dyadic arithmetic), the returned model assigns every query variable and attains that value (any maximiser accepted on ties); num_vars = n..n+3. Non-trivial: >=2 query variables in the support and >=2 distinct values among query assignments";
     fn cases(tier: Tier) -> u32 {
         tier.pick(30_000, 300_000)
     }
@@ -200,7 +242,8 @@ impl SubCheckT for Map {
                 let x = qkeys.iter().fold(0u16, |a, b| a ^ b);
                 let extra_vars = (x % 4) as u8;
                 let tiny = (x >> 2) % 3 == 0;
-                MapCase { src, order, qmask, qkeys, w, extra_vars, tiny }
+                let embed = if (x >> 5) % 4 == 0 { Some((9 + ((x >> 7) % 190) as u8, 0x9E37_79B9u64.wrapping_mul(x as u64 + 1))) } else { None };
+                MapCase { src, order, qmask, qkeys, w, extra_vars, tiny, embed }
             })
             .boxed()
     }
@@ -228,6 +271,9 @@ pub struct MeuCase {
     /// probabilities are powers of two down to 2^-7 (and complements) instead of eighths
     #[serde(default)]
     pub tiny: bool,
+    /// as in MapCase
+    #[serde(default)]
+    pub embed: Option<(u8, u64)>,
 }
 
 pub struct Meu;
@@ -301,10 +347,16 @@ pub fn run_meu(case: &MeuCase, st: &mut Stats) -> CaseResult {
             }
         }
     };
+    let emb = embedding(case.embed, n, &order);
     let mut params = WmcParams::<ExpectedUtility>::default();
-    for v in 0..n {
-        let (l, h) = (w(v, false), w(v, true));
-        params.set_weight(VarLabel::new_usize(v), ExpectedUtility(l.0, l.1), ExpectedUtility(h.0, h.1));
+    for l in 0..emb.total {
+        match emb.labels.iter().position(|x| *x == l) {
+            Some(v) => {
+                let (lo, hi) = (w(v, false), w(v, true));
+                params.set_weight(VarLabel::new_usize(l), ExpectedUtility(lo.0, lo.1), ExpectedUtility(hi.0, hi.1));
+            }
+            None => params.set_weight(VarLabel::new_usize(l), ExpectedUtility(0.5, 0.0), ExpectedUtility(0.5, 0.0)),
+        }
     }
     let eops = Ops::<(f64, f64)> {
         zero: (0.0, 0.0),
@@ -312,8 +364,8 @@ pub fn run_meu(case: &MeuCase, st: &mut Stats) -> CaseResult {
         add: &|a, b| (a.0 + b.0, a.1 + b.1),
         mul: &|a, b| (a.0 * b.0, a.0 * b.1 + a.1 * b.0),
     };
-    let b = RobddBuilder::<AllIteTable<BddPtr>>::new(VarOrder::new(&order.iter().map(|v| VarLabel::new_usize(*v)).collect::<Vec<_>>()));
-    let f = bdd_from_tt(&b, t, n);
+    let b = RobddBuilder::<AllIteTable<BddPtr>>::new(VarOrder::new(&emb.order.iter().map(|v| VarLabel::new_usize(*v)).collect::<Vec<_>>()));
+    let f = bdd_from_tt_labels(&b, t, &emb.labels);
     // the optimum is taken over the function the diagram denotes (whether the builder produced the requested
     // one is C01's concern)
     let t = bdd_tt(f);
@@ -328,9 +380,9 @@ pub fn run_meu(case: &MeuCase, st: &mut Stats) -> CaseResult {
             best = val;
         }
     }
-    let dl: Vec<VarLabel> = d.iter().map(|v| VarLabel::new_usize(*v)).collect();
+    let dl: Vec<VarLabel> = d.iter().map(|v| VarLabel::new_usize(emb.labels[*v])).collect();
     let check = |name: &str, got: ExpectedUtility, pm: &PartialModel| -> CaseResult {
-        let m = model_of(pm, n);
+        let m = model_of(pm, &emb.labels);
         ensure!(
             got.1 == best,
             format!("C12/{}-value-not-the-maximum", name),
@@ -379,7 +431,8 @@ pub fn run_meu(case: &MeuCase, st: &mut Stats) -> CaseResult {
         );
         Ok(())
     };
-    let nv = n + (case.extra_vars % 4) as usize;
+    let nv = emb.total + (case.extra_vars % 4) as usize;
+    st.flag("meu.embedded_in_a_larger_builder", case.embed.is_some());
     let (v1, m1) = f.meu(&dl, nv, &params);
     check("meu", v1, &m1)?;
     let (v2, m2) = f.bb::<ExpectedUtility>(&dl, nv, &params);
@@ -401,7 +454,7 @@ pub fn run_meu(case: &MeuCase, st: &mut Stats) -> CaseResult {
 impl SubCheckT for Meu {
     type Case = MeuCase;
     const NAME: &'static str = "meu";
-    const RULE: &'static str = "random function over <=6 variables; variables are decisions (unit weight), chance (p,0)/(1-p,0) or utility-bearing (indicator style (1,0)/(1,u) or probabilistic (p,p*u0)/(1-p,(1-p)*u1), u>=0), the order being built so that every utility-bearing variable follows all decision variables; meu and bb::<ExpectedUtility> return exactly the maximum over decision assignments of the expected-utility component of the order-aware unsmoothed count of the restricted function (exhaustive, exact dyadics), with a complete decision assignment that attains it and under which the restricted count equals the returned pair; num_vars = n..n+3. Non-trivial: >=2 decision variables in the support and >=2 distinct values";
+    const RULE: &'static str = "random function over <=6 variables (in a quarter of the cases inside a builder with 9..198 variables); variables are decisions (unit weight), chance (p,0)/(1-p,0) or utility-bearing (indicator style (1,0)/(1,u) or probabilistic (p,p*u0)/(1-p,(1-p)*u1), u>=0), the order being built so that every utility-bearing variable follows all decision variables; meu and bb::<ExpectedUtility> return exactly the maximum over decision assignments of the expected-utility component of the order-aware unsmoothed count of the restricted function (exhaustive, exact dyadics), with a complete decision assignment that attains it and under which the restricted count equals the returned pair; num_vars = n..n+3. Non-trivial: >=2 decision variables in the support and >=2 distinct values";
     fn cases(tier: Tier) -> u32 {
         tier.pick(30_000, 300_000)
     }
@@ -417,7 +470,8 @@ impl SubCheckT for Meu {
                 let x = dkeys.iter().fold(0u16, |a, b| a ^ b);
                 let extra_vars = (x % 4) as u8;
                 let tiny = (x >> 2) % 3 == 0;
-                MeuCase { src, order, roles, dkeys, w, extra_vars, tiny }
+                let embed = if (x >> 5) % 4 == 0 { Some((9 + ((x >> 7) % 190) as u8, 0x9E37_79B9u64.wrapping_mul(x as u64 + 1))) } else { None };
+                MeuCase { src, order, roles, dkeys, w, extra_vars, tiny, embed }
             })
             .boxed()
     }
